@@ -500,6 +500,7 @@ type ValOpts struct {
 	DynDepth  int    // max nesting of dynamic values
 	DynScalar []Kind // leaf kinds allowed inside generated dynamic values
 	DynOpts   *GenOpts
+	MidStr    *int // if set and positive: remaining number of strings / raw buffers of a length within 4 of a power of two (28 .. 4100 bytes) this value may hold
 	LongStr   *int // if set and positive: remaining number of long (4 KiB .. 70 KiB) strings / raw buffers this value may hold
 }
 
@@ -512,6 +513,16 @@ func (o ValOpts) long(rng *rand.Rand) int {
 	}
 	*o.LongStr--
 	return longLens[rng.Intn(len(longLens))]
+}
+
+// mid returns a length within 4 of a power of two between 32 and 4096 (the sizes of scratch buffers),
+// or -1.
+func (o ValOpts) mid(rng *rand.Rand) int {
+	if o.MidStr == nil || *o.MidStr <= 0 || rng.Intn(4) != 0 {
+		return -1
+	}
+	*o.MidStr--
+	return 1<<uint(5+rng.Intn(8)) + rng.Intn(9) - 4
 }
 
 var edgeI64 = []int64{0, 1, -1, math.MaxInt8, math.MinInt8, math.MaxInt16, math.MinInt16, math.MaxInt32, math.MinInt32, math.MaxInt64, math.MinInt64, 255, 256, 65535, 65536, 0x42dead42}
@@ -632,7 +643,11 @@ func genValue(rng *rand.Rand, t *Type, o ValOpts) interface{} {
 			return rng.NormFloat64() * 1e6
 		}
 	case String:
-		if n := o.long(rng); n >= 0 {
+		n := o.long(rng)
+		if n < 0 {
+			n = o.mid(rng)
+		}
+		if n >= 0 {
 			b := make([]byte, n)
 			for i := range b {
 				b[i] = byte(' ' + rng.Intn(95))
@@ -642,6 +657,9 @@ func genValue(rng *rand.Rand, t *Type, o ValOpts) interface{} {
 		return GenString(rng, o.MaxStr)
 	case Raw:
 		n := o.long(rng)
+		if n < 0 {
+			n = o.mid(rng)
+		}
 		if n < 0 {
 			n = rng.Intn(o.MaxStr + 1)
 		}
